@@ -31,7 +31,7 @@ pub(crate) enum SignatureAlgorithmParams {
 
 /// Signature algorithm type
 pub struct SignatureAlgorithm {
-	oids_sign_alg: &'static [&'static [u64]],
+	pub(crate) oids_sign_alg: &'static [&'static [u64]],
 	#[cfg(feature = "crypto")]
 	pub(crate) sign_alg: SignAlgo,
 	oid_components: &'static [u64],
